@@ -11,6 +11,7 @@ from __future__ import annotations
 import json
 import os
 import random
+import re
 import shutil
 import sys
 
@@ -81,7 +82,7 @@ FREE_EXT = ["f90", "f90", "f95", "f03", "f08", "F90"]
 QLITS = ['"don\'t"', "'say \"hi'", '"it\'s ! no comment"', "'a \" ; b'", '"x\'\'y\'"', "'plain'", '"pl ain"', "'it''s'", '"q""q\'"']
 
 
-def quote_module(seed):
+def quote_module(seed, cpp=False):
     """Statement list of a module whose declarations and output statements carry literals with the other quote character, `!`
     and `;` inside (what a trailing-comment / sequence-field scanner has to step over)"""
     rng = random.Random(seed * 31 + 7)
@@ -91,6 +92,12 @@ def quote_module(seed):
     for i in range(rng.randint(2, 5)):
         lits = rng.sample(QLITS, rng.randint(1, 3))
         st.append(S(f"character(len=40) :: qv{i} = " + " // ".join(lits), [f"qd{i}a doc of qv{i}"] if rng.random() < 0.7 else []))
+    # a literal long enough to run through column 72 in fixed form (it goes on in column 7 of the continuation line), with `!`, `;`, `&` and the other quote in every part
+    # (no blanks and no doubled delimiter in it: every column is a place where the line can end without a trailing blank)
+    words = ["it's", "no.!.comment", "a.;.b", "R&D", "!!.nor.doc", "say.'hi", "plain.words", "!>.x", "c&", "x!y", "&", "!"]
+    st.append(S("character(len=200) :: qlong = \"" + "_".join(rng.choice(words) for _ in range(rng.randint(9, 14))) + "\"", [f"qdl doc of qlong"] if rng.random() < 0.5 else []))
+    if cpp:
+        st.append(S(f"vfcppmark{seed % 1000}=0"))  # replaced by pre-processor lines after the layout
     st += [S("contains"), S(f"subroutine qs{seed % 1000}()", [f"qds doc"], kind="open")]
     for i in range(rng.randint(1, 3)):
         st.append(S("print *, " + ", ".join(rng.sample(QLITS, rng.randint(1, 3))), kind="exec"))
@@ -102,7 +109,14 @@ def quote_module(seed):
     return st
 
 
-def render_pair(seed, files, length_limit, ext_fixed, ext_free, feats):
+def cpp_block(seed, indent):
+    """conditional compilation and a macro (the default pre-processor sees the file before FORD does, whatever its source form)"""
+    k = seed % 1000
+    return "\n".join([f"#ifdef ZQ_NOT_DEFINED_{k}", f"{indent}integer :: zqhidden{k}", "#else", f"{indent}integer :: zqshown{k}", "#endif", f"#define ZQ_N{k} 7",
+                      f"{indent}integer :: zqarr{k}(ZQ_N{k})"])
+
+
+def render_pair(seed, files, length_limit, ext_fixed, ext_free, feats, cpp=False):
     """(free files, fixed files, texts) of one project for one setting of fixed_length_limit"""
     rng = random.Random(seed * 3 + (1 if length_limit else 2))
     style = fgen.Style(seed * 7 + 1)
@@ -112,7 +126,7 @@ def render_pair(seed, files, length_limit, ext_fixed, ext_free, feats):
         name = f"zq{seed % 1000}"
 
     for f in list(files) + [_Q]:
-        stmts = fgen.render_file(f, fgen.Style(style.seed)) if f is not _Q else quote_module(seed)
+        stmts = fgen.render_file(f, fgen.Style(style.seed)) if f is not _Q else quote_module(seed, cpp)
         layout.assign_labels(stmts, random.Random(seed + 5))
         # optionally move a run of declarations into an INCLUDEd file (same form as the including file; an INCLUDE line is never continued)
         inc = None
@@ -127,6 +141,10 @@ def render_pair(seed, files, length_limit, ext_fixed, ext_free, feats):
             feats.add("include_file")
         free_text = layout.Layout(seed, plain=True).free(stmts)
         fixed_text = lay_fixed.fixed(stmts, length_limit=length_limit, junk=length_limit)
+        if cpp and f is _Q:
+            free_text = re.sub(rf"(?m)^.*vfcppmark{seed % 1000}=0.*$", lambda m: cpp_block(seed, ""), free_text)
+            fixed_text = re.sub(rf"(?m)^.*vfcppmark{seed % 1000}=0.*$", lambda m: cpp_block(seed, "      "), fixed_text)
+            feats.add("cpp_conditionals_and_macro")
         if inc:
             free_text = free_text.replace(inc[2], f"include '{inc[0]}'")
             fixed_text = fixed_text.replace(inc[2], f"include '{inc[0]}'")
@@ -152,6 +170,8 @@ def case(arg):
     ext_fixed, ext_free = rng.choice(FIXED_EXT), rng.choice(FREE_EXT)
     # the default pre-processor (pcpp on PATH) for the extensions FORD pre-processes by default (.F .FOR .F90)
     preprocess = ext_fixed in ("F", "FOR") and rng.random() < 0.5
+    if preprocess:
+        ext_free = "F90"  # the free-form twin goes through the pre-processor as well
     base = core.mktemp("vf_c14_")
     viol = []
     feats = set()
@@ -162,7 +182,7 @@ def case(arg):
         free_root, fixed_root = os.path.join(base, "free"), os.path.join(base, "fixed")
         steps_free, steps_fixed, limits = [], [], [first_limit, not first_limit]
         for ll in limits:
-            fr, fx, texts, lfeat = render_pair(seed, files, ll, ext_fixed, ext_free, feats)
+            fr, fx, texts, lfeat = render_pair(seed, files, ll, ext_fixed, ext_free, feats, cpp=preprocess)
             lf |= lfeat
             texts_all[ll] = texts
             settings = {"fixed_length_limit": ll}
